@@ -72,15 +72,14 @@ impl World {
         assert!(near.iter().all(|k| closest.contains(&PeerId::from(k.public()))), "near payees must be among the K closest");
         assert!(!closest.contains(&PeerId::from(far_known.public())), "the known-far payee must not be among the K closest");
         // K_VALUE = 20 INCLUDING the node itself (driver.rs get_closest_k_value_local_peers: once(self).chain(closest).take(K)):
-        // the 19th closest known peer is the last payee that still counts as close, the 20th is the first that does not
-        assert!(closest.len() == 20 && closest[0] == n.peer, "K closest = self + 19 peers");
-        let by_peer = |p: &PeerId| cands.iter().find(|c| PeerId::from(c.0.public()) == *p).map(|c| c.0.clone());
-        let in19 = by_peer(&closest[19]).expect("19th closest is one of the candidates");
-        let mut outside = cands.iter().filter(|c| !closest.contains(&PeerId::from(c.0.public()))).map(|c| c.0.clone());
-        let out20 = outside.next().expect("20th");
-        let out21 = outside.next().expect("21st");
-        assert!(PeerId::from(cands[18].0.public()) == closest[19] && PeerId::from(cands[19].0.public()) == PeerId::from(out20.public()),
-                "the driver's own distance order agrees with the routing table at the K boundary");
+        // the 19th closest known peer is the last payee that still counts as close, the 20th is the first that does not.
+        // The boundary is taken from the driver's OWN distance order (sha256 of the peer id bytes, XOR), so that a node
+        // whose K is off by one shows up as a wrong admission decision; the routing table is only cross-checked away
+        // from the boundary (every candidate made it into the table, in the same order)
+        let pid = |i: usize| PeerId::from(cands[i].0.public());
+        assert!(closest[0] == n.peer && (0..17).all(|i| closest.get(i + 1) == Some(&pid(i))) && (22..30).all(|i| !closest.contains(&pid(i))),
+                "the driver's own distance order agrees with the routing table");
+        let (in19, out20, out21) = (cands[18].0.clone(), cands[19].0.clone(), cands[20].0.clone());
         let far = keypair(&mut rng);
         let forger = keypair(&mut rng);
         World { n, stub, near, far, far_known, far_mode_known: false, forger, edge: (in19, out20, out21), key_ids: HashMap::new(), op_ids: HashMap::new(), pad_contents: HashMap::new(), run: 0 }
@@ -439,7 +438,7 @@ async fn deliver(w: &mut World, t: &mut Trace, d: &Value, src: &str) {
         "beforeP":before_p,"beforeD":before_d,"afterP":after_p,"afterD":after_d,
         "listedBefore":listed_before,"listedAfter":listed_after,"contractCalls":w.stub.calls()-calls0,"unverified":unverified,"unvSame":unv_same,"viaKad":via_kad,
         "exp":triples_json(&b.exp),"calls":got_calls.iter().map(|c| triples_json(c)).collect::<Vec<_>>(),"undecodable":undecodable,
-        "callsFull": if got_calls.iter().all(|c| *c == b.exp) { json!(null) } else { json!({"exp": triples_full(&b.exp), "calls": got_calls.iter().map(|c| triples_full(c)).collect::<Vec<_>>()}) },"selfAt":b.self_at.map(|i| i as i64).unwrap_or(-1),"src":src}));
+        "callsFull": if got_calls.iter().all(|c| *c == b.exp) { json!("") } else { json!({"exp": triples_full(&b.exp), "calls": got_calls.iter().map(|c| triples_full(c)).collect::<Vec<_>>()}) },"selfAt":b.self_at.map(|i| i as i64).unwrap_or(-1),"src":src}));
 }
 
 /// Two replicated deliveries for one address processed concurrently, in the prescribed interleaving.
